@@ -104,6 +104,8 @@ type VC struct {
 	usedLemmas    []*Lemma
 	proved        map[string][]string
 	sliceProvs    map[string]sliceProv
+	inOldAt       map[string]bool
+	marks         map[string]*State // state snapshots taken by `at call f#k mark label`
 	heapAlloc     map[string]string // heap array version -> allocation watermark when it was created
 	gkinds        []guardKind
 	gkDone        bool
